@@ -418,6 +418,8 @@ fn report_replay(out: &RunOutput, prop: &str, clause: &str, want_hash: &str, qui
             println!("  {}", v.msg);
             if same_clause && same_hash {
                 1
+            } else if same_clause {
+                4 // same violation, different event log: the system under test is not deterministic
             } else {
                 3
             }
@@ -487,6 +489,9 @@ fn main() {
         std::process::exit(2);
     }
     sim::install_panic_hook();
+    if matches!(argv[1].as_str(), "worker" | "replay" | "hashes") {
+        link_hostile::calibrate_all();
+    }
     let a = parse_args(&argv[2..]);
     let code = match argv[1].as_str() {
         "worker" => cmd_worker(&a),
